@@ -8,6 +8,7 @@ import (
 	"time"
 
 	"github.com/benhoyt/goawk/internal/compiler"
+	"github.com/benhoyt/goawk/parser"
 )
 
 // C15 — cancellation stops execution within a bounded number of steps and is otherwise invisible.
@@ -161,5 +162,55 @@ func VerifC15ShellContext() {
 	log := verifEventLog()
 	if verifInEngine() {
 		verifAssert(strings.Contains(log, "command:") && strings.Contains(log, "commandcontext") == (mode == 1), "a child process must be started with the context exactly when the context is being checked")
+		// apart from the context a command is set up the same way with and without one
+		verifAssert(strings.Contains(log, "waitdelay:250000000"), "a child process was started without the wait delay that keeps inherited pipes from blocking the run (with a context and without one the set-up must be the same)")
+	}
+}
+
+// a context with a deadline far in the future whose Done channel is closed all the same (cancelled explicitly)
+type verifDeadlineCtx struct{ verifCtx }
+
+func (c *verifDeadlineCtx) Deadline() (time.Time, bool) { return time.Unix(1<<40, 0), true }
+
+// the public entry points: ExecuteContext on a fresh and on a reused Interpreter, contexts with and without a deadline
+func VerifC15PublicAPI() {
+	prog, perr := parser.ParseProgram([]byte(`BEGIN { for (i = 0; i < lim; i++) n++; for (j = 0; j < forever; j++) m++ }`), nil)
+	verifAssert(perr == nil, "program does not parse")
+	ip, _ := New(prog)
+	cfg := func(lim, forever string) *Config {
+		return &Config{Stdin: bytes.NewReader(nil), Output: &bytes.Buffer{}, Error: &bytes.Buffer{}, Environ: []string{}, Vars: []string{"lim", lim, "forever", forever, "n", "0", "m", "0"}}
+	}
+	mkctx := func(cancelled bool, deadline bool) context.Context {
+		c := verifCtx{done: make(chan struct{})}
+		if cancelled {
+			close(c.done)
+		}
+		if deadline {
+			return &verifDeadlineCtx{c}
+		}
+		return &c
+	}
+	scenario := verifIntRange(0, 3)
+	deadline := verifIntRange(0, 1) == 1
+	switch scenario {
+	case 0:
+		// an earlier, longer run under a context that is still alive must not shadow the next run's context
+		_, err1 := ip.ExecuteContext(mkctx(false, verifIntRange(0, 1) == 1), cfg("1200", "0"))
+		verifAssert(err1 == nil, "a run under a live context failed")
+		_, err2 := ip.ExecuteContext(mkctx(true, deadline), cfg("0", "4000"))
+		verifReach("second-run-returned")
+		verifAssert(err2 == verifCanceled && ip.interp.globals[ip.interp.scalarIndexes["m"]].n <= checkContextOps, "on a reused Interpreter the second run's cancelled context was not noticed within the polling interval")
+	case 1:
+		_, err := ip.ExecuteContext(mkctx(true, deadline), cfg("0", "4000"))
+		verifAssert(err == verifCanceled && ip.interp.globals[ip.interp.scalarIndexes["m"]].n <= checkContextOps, "a cancelled context (with or without a deadline that has not passed) did not stop the run within the polling interval")
+	case 2:
+		// never cancelled: same result as Execute
+		_, err := ip.ExecuteContext(mkctx(false, deadline), cfg("2500", "0"))
+		verifAssert(err == nil && ip.interp.globals[ip.interp.scalarIndexes["n"]].n == 2500, "a run under a context that is never cancelled did not complete like a plain run")
+	default:
+		// a cancelled run followed by a plain Execute
+		ip.ExecuteContext(mkctx(true, deadline), cfg("0", "4000"))
+		_, err := ip.Execute(cfg("1500", "0"))
+		verifAssert(err == nil && ip.interp.globals[ip.interp.scalarIndexes["n"]].n == 1500, "a plain Execute after a cancelled ExecuteContext was interrupted")
 	}
 }
